@@ -5,6 +5,7 @@
 //!   ftags a b / rtags a / stags a   tags on feature / rule / scenario (without @)
 //!   bg <n>                     background steps of the feature
 //!   own <n>                    own steps of the scenario
+//!   dup <i> / bgdup <i>        own / background step i has the same keyword and text as the last own step
 //!   rule 0|1                   scenario lives in a rule
 //!   ev started|finished r=..
 //!   ev hook before|after started|passed|failed r=..
@@ -38,10 +39,16 @@ pub fn run(lines: &[Vec<String>]) {
         text.push_str(&format!("{}\n", tags("ftags")));
     }
     text.push_str("Feature: f\n");
+    // `dup <i>` / `bgdup <i>`: own / background step i has the same keyword and text as the LAST own step
+    let dup = |k: &str, i: usize| lines.iter().any(|l| l[0] == k && l[1].parse::<usize>().ok() == Some(i));
     if nbg > 0 {
         text.push_str("  Background:\n");
         for i in 0..nbg {
-            text.push_str(&format!("    Given bg {i}\n"));
+            if dup("bgdup", i) && nown > 0 {
+                text.push_str(&format!("    Given own {}\n", nown - 1));
+            } else {
+                text.push_str(&format!("    Given bg {i}\n"));
+            }
         }
     }
     let ind = if in_rule { "    " } else { "  " };
@@ -56,7 +63,11 @@ pub fn run(lines: &[Vec<String>]) {
     }
     text.push_str(&format!("{ind}Scenario: s\n"));
     for i in 0..nown {
-        text.push_str(&format!("{ind}  Given own {i}\n"));
+        if dup("dup", i) {
+            text.push_str(&format!("{ind}  Given own {}\n", nown - 1));
+        } else {
+            text.push_str(&format!("{ind}  Given own {i}\n"));
+        }
     }
     let feat = parse_feature(&text);
     let feature = Source::new(feat.clone());
@@ -151,6 +162,13 @@ pub fn run(lines: &[Vec<String>]) {
         }
         "repeat_skipped" => {
             let _w = feed!(writer::Repeat::skipped(rec.clone()));
+            dump(&rec);
+            println!("RESULT inner_events={}", rec.log.lock().unwrap().len());
+            return;
+        }
+        "repeat_all" => {
+            // a custom filter that selects every item, the run-level events included
+            let _w = feed!(writer::Repeat::new(rec.clone(), |_: &parser::Result<Event<Ev<W>>>| true));
             dump(&rec);
             println!("RESULT inner_events={}", rec.log.lock().unwrap().len());
             return;
